@@ -1,4 +1,193 @@
-import Casket.Spec.ProxyMsg
+import Casket.Proofs.ProxyMsg
 import Casket.Generated.ProxyHeaders
+/-
+C04 — Reverse proxy relays requests and responses faithfully.
+
+Statements only; helper lemmas live in Casket/Proofs/ProxyMsg.lean.  `forward` is the model of
+createUpstreamRequest + the per-attempt part of Proxy.ServeHTTP + the Director (what the backend
+transport is handed), `respond` the model of ReverseProxy.ServeHTTP after the round trip; both
+are tied to the Go code by the streams c04.req / c04.resp.  `verdictReq` / `verdictResp` are the
+executable forms of the property that the driver applies to the *implementation's* answers.
+
+The theorems are about the model of the code after the two `fix:` commits (every Connection
+line is honoured; hop-by-hop headers are removed whatever their first value is).
+-/
 namespace Casket.Props.C04
+open Casket.ProxyMsg Casket.ProxyMsgSpec
+
+/-- the hop-by-hop list of reverseproxy.go, regenerated on every run -/
+abbrev hop : List Str := Casket.Generated.hopHeaderBytes
+abbrev skip : List Str := Casket.Generated.skipHeaderBytes
+
+/-! ### regenerated facts -/
+
+/-- The code's hop-by-hop list is exactly the set the specification allows to be dropped … -/
+theorem C04_hop_list_is_spec : (hop.all specHop.contains && specHop.all hop.contains) = true := by decide
+
+/-- … it contains every header RFC 7230 §6.1 forbids forwarding … -/
+theorem C04_rfc_hop_covered : rfcHop.all hop.contains = true := by decide
+
+/-- … and its names are in canonical form (so `Header.Del` hits the key net/http stores). -/
+theorem C04_hop_names_canonical : CanonicalNames hop := by unfold CanonicalNames; decide
+
+theorem C04_skip_list_is_spec : (skip.all specSkip.contains && specSkip.all skip.contains) = true := by decide
+
+/-! ### request side -/
+
+/-- no header_upstream rule is aimed at `k` -/
+def Untargeted (rules : Rules) (k : Str) : Prop := (rules.map fun r => ruleTarget r.1).contains k = false
+
+/-- Master statement: for every header name, the value list the backend receives is the
+client's list with hop-by-hop names emptied, the client address folded into X-Forwarded-For and
+the one rule aimed at that name applied — for every request, header multiset, `Connection`
+header, remote address and non-interfering rule set. -/
+theorem C04_request_headers_exact (hl : List Str) (hc : CanonicalNames hl) (repl : Str → Str) (u : Upstream)
+    (r : Request) (hne : Hdr.NoEmpty r.header) (hni : nonInterfering u.upRules = true) (k : Str) :
+    (forward hl repl u r).header.vals k = expectReqVals hl repl u r k :=
+  vals_forward hl hc repl u r hne hni k
+
+/-- End-to-end headers reach the backend intact (same values, same order, duplicates kept). -/
+theorem C04_end_to_end_headers_preserved (hl : List Str) (hc : CanonicalNames hl) (repl : Str → Str) (u : Upstream)
+    (r : Request) (hne : Hdr.NoEmpty r.header) (hni : nonInterfering u.upRules = true) (k : Str)
+    (he2e : isHop hl r.header k = false) (hx : k ≠ sXFF) (hr : Untargeted u.upRules k) :
+    (forward hl repl u r).header.vals k = r.header.vals k := by
+  rw [vals_forward hl hc repl u r hne hni]
+  unfold expectReqVals
+  have : (k == sXFF) = false := by simp [hx]
+  simp only [he2e, this, Bool.false_eq_true, if_false]
+  exact ruleEffect_none _ _ _ _ hr
+
+/-- A hop-by-hop header never reaches the backend, whatever its values are (unless a configured
+rule re-adds it, as the `websocket` preset does). -/
+theorem C04_hop_removed (hl : List Str) (hc : CanonicalNames hl) (repl : Str → Str) (u : Upstream)
+    (r : Request) (hne : Hdr.NoEmpty r.header) (hni : nonInterfering u.upRules = true) (k : Str)
+    (hk : k ∈ hl) (hx : k ≠ sXFF) (hr : Untargeted u.upRules k) :
+    (forward hl repl u r).header.vals k = [] := by
+  rw [vals_forward hl hc repl u r hne hni]
+  unfold expectReqVals
+  have h1 : isHop hl r.header k = true := by simp [isHop, hk]
+  have : (k == sXFF) = false := by simp [hx]
+  simp only [h1, this, if_true, Bool.false_eq_true, if_false]
+  exact ruleEffect_none _ _ _ _ hr
+
+/-- A header named on any line of `Connection` (any case, any spacing) never reaches the backend. -/
+theorem C04_connection_listed_removed (hl : List Str) (hc : CanonicalNames hl) (repl : Str → Str) (u : Upstream)
+    (r : Request) (hne : Hdr.NoEmpty r.header) (hni : nonInterfering u.upRules = true) (name : Str)
+    (hk : name ∈ connListed r.header) (hx : canon name ≠ sXFF) (hr : Untargeted u.upRules (canon name)) :
+    (forward hl repl u r).header.vals (canon name) = [] := by
+  rw [vals_forward hl hc repl u r hne hni]
+  unfold expectReqVals
+  have h1 : isHop hl r.header (canon name) = true := by
+    simp only [isHop, Bool.or_eq_true]
+    right
+    simp only [List.contains_eq_mem, List.mem_map, decide_eq_true_eq]
+    exact ⟨name, hk, rfl⟩
+  have : (canon name == sXFF) = false := by simp [hx]
+  simp only [h1, this, if_true, Bool.false_eq_true, if_false]
+  exact ruleEffect_none _ _ _ _ hr
+
+/-- X-Forwarded-For at the backend is one value: the prior values joined by ", " followed by the
+client address (just the client address when there was none). -/
+theorem C04_xff_appended (hl : List Str) (hc : CanonicalNames hl) (repl : Str → Str) (u : Upstream)
+    (r : Request) (hne : Hdr.NoEmpty r.header) (hni : nonInterfering u.upRules = true) (ip port : Str)
+    (haddr : splitHostPort r.remoteAddr = some (ip, port))
+    (hnh : isHop hl r.header sXFF = false) (hr : Untargeted u.upRules sXFF) :
+    (forward hl repl u r).header.vals sXFF =
+      [if r.header.vals sXFF != [] then joinCommaSpace (r.header.vals sXFF) ++ commaSpace ++ ip else ip] := by
+  rw [vals_forward hl hc repl u r hne hni]
+  unfold expectReqVals
+  simp only [hnh, haddr, beq_self_eq_true, Bool.false_eq_true, if_false, if_true]
+  exact ruleEffect_none _ _ _ _ hr
+
+/-- Exactly the configured header_upstream changes: the headers with the rules equal the rule
+effect on the headers without any rule, name by name. -/
+theorem C04_upstream_rules_exact (hl : List Str) (hc : CanonicalNames hl) (repl : Str → Str) (u : Upstream)
+    (r : Request) (hne : Hdr.NoEmpty r.header) (hni : nonInterfering u.upRules = true) (k : Str) :
+    (forward hl repl u r).header.vals k =
+      ruleEffect repl u.upRules k ((forward hl repl { u with upRules := [] } r).header.vals k) := by
+  rw [vals_forward hl hc repl u r hne hni, vals_forward hl hc repl _ r hne rfl]
+  rfl
+
+/-- The path is the base path joined by exactly one slash to the request path minus `without`. -/
+theorem C04_path_exact (hl : List Str) (repl : Str → Str) (u : Upstream) (r : Request) :
+    (forward hl repl u r).url.path = joinOneSlash u.target.path (trimPrefix r.url.path u.without) :=
+  director_path _ _ _
+
+/-- The encoded path is absent when neither side has one, else the same join of the encoded forms. -/
+theorem C04_rawpath_exact (hl : List Str) (repl : Str → Str) (u : Upstream) (r : Request) :
+    (forward hl repl u r).url.rawPath = expectRawPath u.target u.without r.url :=
+  director_rawPath _ _ _
+
+/-- The query is the target's query and the request's query, joined by `&` when both exist. -/
+theorem C04_query_preserved (hl : List Str) (repl : Str → Str) (u : Upstream) (r : Request) :
+    (forward hl repl u r).url.rawQuery = expectQuery u.target r.url.rawQuery :=
+  director_query _ _ _
+
+/-- A target without a query leaves the request's query untouched. -/
+theorem C04_query_untouched (hl : List Str) (repl : Str → Str) (u : Upstream) (r : Request)
+    (ht : u.target.rawQuery = []) : (forward hl repl u r).url.rawQuery = r.url.rawQuery := by
+  rw [C04_query_preserved]; simp [expectQuery, ht]
+
+/-- net/http's contract for server requests: Content-Length 0 means there is no body. -/
+def BodyConsistent (r : Request) : Prop := r.contentLength = 0 → bodyBytes r.body = []
+
+/-- Method, Content-Length and body bytes are not touched. -/
+theorem C04_method_body_untouched (hl : List Str) (repl : Str → Str) (u : Upstream) (r : Request)
+    (hb : BodyConsistent r) :
+    (forward hl repl u r).method = r.method ∧ (forward hl repl u r).contentLength = r.contentLength ∧
+      bodyBytes (forward hl repl u r).body = bodyBytes r.body := by
+  refine ⟨rfl, rfl, ?_⟩
+  rw [forward_body]
+  by_cases h0 : r.contentLength = 0
+  · have := hb h0
+    simp only [h0, beq_self_eq_true, if_true]
+    rw [this]; rfl
+  · have : (r.contentLength == 0) = false := by simp [h0]
+    simp [this]
+
+/-- The whole judged request-side predicate: the model's answer always gets the verdict "ok".
+(The same `verdictReq` is applied by the driver to the implementation's answers.) -/
+theorem C04_request_model_verdict_ok (hl : List Str) (hc : CanonicalNames hl) (repl : Str → Str) (u : Upstream)
+    (r : Request) (hne : Hdr.NoEmpty r.header) (hni : nonInterfering u.upRules = true) (hb : BodyConsistent r) :
+    verdictReq hl repl u r (forward hl repl u r) = "ok" := by
+  obtain ⟨_, _, h3⟩ := C04_method_body_untouched hl repl u r hb
+  have hfind : (reqKeys hl u r (forward hl repl u r)).find?
+      (fun k => (forward hl repl u r).header.vals k != expectReqVals hl repl u r k) = none := by
+    rw [List.find?_eq_none]
+    intro k _
+    simp [vals_forward hl hc repl u r hne hni k]
+  unfold verdictReq
+  rw [forward_method, forward_contentLength, forward_url, director_path, director_rawPath, director_query, h3, hfind]
+  simp
+
+/-! Non-vacuity: concrete instances of the hypotheses and of the interesting cases. -/
+
+/-- test: `Connection: close` + `Connection: x-secret` (two lines), `Keep-Alive` with an empty first value,
+a prior X-Forwarded-For, rule `+X-Tag: t`; the request of the seeded mutation rehearsal. -/
+def exampleRequest : Request :=
+  { method := [71, 69, 84], url := { scheme := [], host := [], path := [47, 97], rawPath := [], opaq := [], rawQuery := [] },
+    host := [102], remoteAddr := [49, 46, 50, 46, 51, 46, 52, 58, 53], contentLength := 0, body := none,
+    header := [(sConnection, [[99, 108, 111, 115, 101], [120, 45, 115, 101, 99, 114, 101, 116]]),
+               ([88, 45, 83, 101, 99, 114, 101, 116], [[115]]),
+               ([75, 101, 101, 112, 45, 65, 108, 105, 118, 101], [[], [49]]),
+               (sXFF, [[57, 46, 57, 46, 57, 46, 57]]),
+               ([65, 99, 99, 101, 112, 116], [[42, 47, 42]])] }
+
+def exampleUpstream : Upstream :=
+  { target := { scheme := sHttp, host := [98], path := [47, 98, 97, 115, 101, 47], rawPath := [], opaq := [], rawQuery := [] },
+    without := [], upRules := [([43, 88, 45, 84, 97, 103], [[116]])], downRules := [] }
+
+example : Hdr.NoEmpty exampleRequest.header := by unfold Hdr.NoEmpty; decide
+example : nonInterfering exampleUpstream.upRules = true := by decide
+example : BodyConsistent exampleRequest := by unfold BodyConsistent; decide
+/-- test: X-Secret and Keep-Alive are gone, Accept is intact, X-Forwarded-For is "9.9.9.9, 1.2.3.4", path is /base/a -/
+example :
+    let o := forward hop id exampleUpstream exampleRequest
+    o.header.vals [88, 45, 83, 101, 99, 114, 101, 116] = [] ∧
+    o.header.vals [75, 101, 101, 112, 45, 65, 108, 105, 118, 101] = [] ∧
+    o.header.vals [65, 99, 99, 101, 112, 116] = [[42, 47, 42]] ∧
+    o.header.vals sXFF = [[57, 46, 57, 46, 57, 46, 57, 44, 32, 49, 46, 50, 46, 51, 46, 52]] ∧
+    o.header.vals [88, 45, 84, 97, 103] = [[116]] ∧
+    o.url.path = [47, 98, 97, 115, 101, 47, 97] := by decide
+
 end Casket.Props.C04
